@@ -3,6 +3,9 @@
 Functions under contract (read from /repo on every run):
   dagrt/codegen/utils.py: wrap_line_base
   dagrt/codegen/python.py: pad_python      dagrt/codegen/fortran.py: pad_fortran
+  the module-level bindings wrap_line of both back ends (WrapBinding)
+  dagrt/codegen/python.py: CodeGenerator._emit (PyEmitCallSite)
+  dagrt/codegen/fortran.py: CodeGenerator.get_code (c20site.FortranGetCodeSite)
 """
 import ast as pyast
 import z3
@@ -575,7 +578,8 @@ class PyEmitCallSite(FunctionContract):
 
 
 def units():
-    return [FunctionUnit(WrapLine()), FunctionUnit(WrapLineDefault()), FunctionUnit(PyEmitCallSite()),
+    from . import c20site
+    return [FunctionUnit(WrapLine()), FunctionUnit(WrapLineDefault()), FunctionUnit(PyEmitCallSite())] + c20site.units() + [
             FunctionUnit(WrapBinding("dagrt/codegen/python.py", "pad_python")),
             FunctionUnit(WrapBinding("dagrt/codegen/fortran.py", "pad_fortran")),
             FunctionUnit(PadContract("dagrt/codegen/python.py", "pad_python", "\\")),
@@ -587,6 +591,7 @@ BOUNDED = {"quick": {"timeout_s": 60}, "thorough": {"timeout_s": 600}}
 TRUSTED_BASE = [
     "A-LEX: lex_func(line) returns the token list of the line and every quoted string lies inside one token (KNOWN TO BE FALSE for shlex.split(posix=False) when a quote does not start a token: findings D19, D27, D28, found and fingerprinted by the bounded stand-in)",
     "z3 string theory for pad_python / pad_fortran (length of concatenation, blank-only padding as a regular-expression membership)",
+    "str models used for CodeGenerator.get_code (Fortran): s.lstrip(' ') is the R of the unique split s = blanks + R with R not starting with a blank; n * s has length max(n, 0) * len(s) and is blank if s is; a // b is floor division for a concrete positive b; slicing, startswith, concatenation and len are z3's sequence operations",
     "functools.partial(f, **kw)(*a, **k) is f(*a, **kw, **k) (the module-level binding wrap_line = partial(wrap_line_base, pad_func=pad_X) is checked to have exactly this shape; a def is executed symbolically instead)",
 ]
 ASSUMPTIONS = [
